@@ -57,7 +57,7 @@ fn run_property(id: &str, args: &[String]) -> i32 {
         "C19" => check::run_check(&c19::C19, &opts),
         "C20" => check::run_check(&c20::C20, &opts),
         _ => {
-            println!("HARNESS-ERROR: unknown property {id}");
+            outln!("HARNESS-ERROR: unknown property {id}");
             2
         }
     }
@@ -68,14 +68,14 @@ fn replay(path: &str) -> i32 {
     let b = match std::fs::read(p) {
         Ok(b) => b,
         Err(e) => {
-            println!("HARNESS-ERROR: {e}");
+            outln!("HARNESS-ERROR: {e}");
             return 2;
         }
     };
     let v: serde_json::Value = match serde_json::from_slice(&b) {
         Ok(v) => v,
         Err(e) => {
-            println!("HARNESS-ERROR: {e}");
+            outln!("HARNESS-ERROR: {e}");
             return 2;
         }
     };
@@ -86,7 +86,7 @@ fn replay(path: &str) -> i32 {
         Some("C19") => check::replay_main(&c19::C19, p),
         Some("C20") => check::replay_main(&c20::C20, p),
         other => {
-            println!("HARNESS-ERROR: replay file for unknown property {other:?}");
+            outln!("HARNESS-ERROR: replay file for unknown property {other:?}");
             2
         }
     }
@@ -113,14 +113,14 @@ fn selfcheck(args: &[String], child: bool) -> i32 {
             Ok(h) => {
                 if child {
                     for x in h {
-                        println!("H {x}");
+                        outln!("H {x}");
                     }
                 } else {
-                    println!("selfcheck {id}: {n} seeds deterministic across worker counts and OS processes");
+                    outln!("selfcheck {id}: {n} seeds deterministic across worker counts and OS processes");
                 }
             }
             Err(e) => {
-                println!("HARNESS-ERROR: determinism self-check failed: {e}");
+                outln!("HARNESS-ERROR: determinism self-check failed: {e}");
                 code = 2;
             }
         }
@@ -129,6 +129,7 @@ fn selfcheck(args: &[String], child: bool) -> i32 {
 }
 
 fn main() {
+    process::init_output();
     process::install_panic_hook();
     let args: Vec<String> = std::env::args().collect();
     match args.get(1).map(String::as_str) {
@@ -147,7 +148,7 @@ fn main() {
                 "C20" => serde_json::to_string_pretty(&c20::C20.generate(seed, i)).unwrap(),
                 _ => String::new(),
             };
-            println!("{v}");
+            outln!("{v}");
         }
         Some("segment-child") => std::process::exit(job::segment_child_main(&args[2..])),
         Some("survey") => {
@@ -168,8 +169,8 @@ fn main() {
             let a = process::hash_order_probe(1);
             let b = process::hash_order_probe(1);
             let c = process::hash_order_probe(2);
-            println!("same seed equal: {}", a == b);
-            println!("different seed differs: {}", a != c);
+            outln!("same seed equal: {}", a == b);
+            outln!("different seed differs: {}", a != c);
         }
         _ => {
             eprintln!("usage: texsim <probe|hashprobe> ...");
@@ -229,23 +230,23 @@ fn probe(args: &[String]) {
     })
     .unwrap();
     for (i, o) in first.0.iter().enumerate() {
-        println!("[{}] {:?} -> out={:?} {}", i, lines2[i], o.out, o.result.short());
+        outln!("[{}] {:?} -> out={:?} {}", i, lines2[i], o.out, o.result.short());
         if !o.term_out.is_empty() {
-            println!("     term_out: {:?}", o.term_out);
+            outln!("     term_out: {:?}", o.term_out);
         }
         if !o.prompts.is_empty() {
-            println!("     prompts: {:?}", o.prompts);
+            outln!("     prompts: {:?}", o.prompts);
         }
     }
     if let Some((f, bytes, cursor)) = first.1 {
         let bytes = match bytes {
             Ok(b) => b,
             Err(e) => {
-                println!("checkpoint failed: {e}");
+                outln!("checkpoint failed: {e}");
                 return;
             }
         };
-        println!("-- checkpoint {} bytes ({})", bytes.len(), f.name());
+        outln!("-- checkpoint {} bytes ({})", bytes.len(), f.name());
         let n = ckpt.unwrap().1;
         let lines3 = lines2.clone();
         let second = process::run_process(22, move || {
@@ -261,10 +262,10 @@ fn probe(args: &[String]) {
         })
         .unwrap();
         match second {
-            Err(e) => println!("restore failed: {e}"),
+            Err(e) => outln!("restore failed: {e}"),
             Ok(obs) => {
                 for (i, o) in obs.iter().enumerate() {
-                    println!(
+                    outln!(
                         "[{}] {:?} -> out={:?} {}",
                         n + i,
                         lines2[n + i],
